@@ -70,7 +70,7 @@ def decode(data: bytes) -> dict:
             body = []
             for _ in range(d.i(0, 2)):
                 body.append(["wait"] if d.p(0.55) else ["yield", d.i(1, 3)])
-            prog["steps"].append({"op": "consumer", "body": body, "end": d.pick(["ret", "ret", "raise", "ret", "raise", "raise-nasty"]), "n": d.i(1, 2),
+            prog["steps"].append({"op": "consumer", "body": body, "end": d.pick(["ret", "ret", "raise", "ret", "raise", "raise-nasty", "raise-stop"]), "n": d.i(1, 2),
                                   "swallow": d.p(0.1), "nested": ("other" if d.p(0.3) else True) if d.p(0.2) else False})
         elif r < 46:
             prog["steps"].append({"op": "agen", "how": d.pick(["aclose", "aclose", "exhaust", "throw"])})
@@ -204,6 +204,11 @@ class QRun:
                     if spec["end"] == "raise":
                         self.labels.add("body:raised")
                         raise BodyError()
+                    if spec["end"] == "raise-stop":
+                        # e.g. next() on an exhausted iterator inside the block: an exception like any other as far as the block goes
+                        self.labels.add("body:raised")
+                        self.labels.add("body:raised-StopIteration")
+                        raise StopIteration("body")
                     if spec["end"] == "raise-nasty":
                         self.labels.add("body:raised")
                         self.labels.add("body:raised-unprintable")
@@ -223,6 +228,8 @@ class QRun:
             rec["state"] = "cancelled" if rec["state"] == "waiting" else rec["state"]
             raise
         except BodyError:
+            pass
+        except StopIteration:
             pass
         except ValueError as e:
             self.fail("mark/task_done-called-too-often", str(e))
@@ -442,7 +449,7 @@ def sweep_cases(tier: str) -> List[dict]:
     bodies = [[], [["yield", 1]], [["wait"]], [["yield", 2], ["wait"]]]
     for maxsize in (0, 1):
         for body in bodies:
-            for end in ("ret", "raise", "raise-nasty"):
+            for end in ("ret", "raise", "raise-nasty", "raise-stop"):
                 for ncons in (1, 2):
                     for nput in (0, 1, 2, 3):
                         for put_first in (True, False):
